@@ -19,6 +19,7 @@ pub mod c14;
 pub mod elfgen;
 pub mod c16;
 pub mod c17;
+pub mod c18;
 pub mod c19;
 pub mod c20;
 
@@ -44,6 +45,7 @@ pub fn dispatch(id: &str, ctx: &Ctx) -> Option<i32> {
         "C14" => c14::run(ctx),
         "C16" => c16::run(ctx),
         "C17" => c17::run(ctx),
+        "C18" => c18::run(ctx),
         "C19" => c19::run(ctx),
         "C20" => c20::run(ctx),
         "SELFTEST" => selftest::run(),
